@@ -164,4 +164,27 @@ CHECKS = {
         note="NECESSARY CONDITIONS ONLY: equality of the rendered text with "
              "the hand-inlined template (the property's main clause) is "
              "value-level and not decided."),
+    "C10": dict(
+        technique="emission-tree rules for the i18n emitters; package-wide "
+                  "census of translate(...) call fragments (sibling "
+                  "agreement); pairing/liveness of setting backups; path "
+                  "enumeration of the conversion routines",
+        text="Decides that visit_Translate captures the element in a "
+             "per-node stream, computes the id by join/collapse/strip, emits "
+             "exactly one translate call per compile-time path with msgid = "
+             "explicit id or computed content, default = computed content, "
+             "mapping = name -> captured block, guarded by 'if msgid' without "
+             "an explicit id, result appended to the enclosing stream; that "
+             "every translate fragment in the package passes domain, context "
+             "and target_language from the scoped locals; that "
+             "domain/context/target are bracketed by per-node save/restore; "
+             "that render functions and slot fillers carry the settings as "
+             "parameters (fillers default to their definition site and are "
+             "called with three arguments, macros with the caller's "
+             "settings); that i18n:name blocks are captured separately with "
+             "the placeholder in the enclosing stream and duplicates/strays "
+             "rejected; that message objects are offered to translate before "
+             "str() on all paths; attribute translation wiring.",
+        note="simple_translate's substitution regex and the translation "
+             "function's own behaviour are not decided."),
 }
